@@ -1141,6 +1141,12 @@ impl RoomAuthorisations {
     ) -> Result<bool> {
         room_node.check_consistency()?;
 
+        //need_update is not signed: what is stored must not depend on the value sent by the peer
+        //prepare_room_with_history sets it back to false for the groups whose stored row is kept
+        for auth in &mut room_node.auth_nodes {
+            auth.need_update = true;
+        }
+
         let insert = match self.rooms.get(&room_node.node.id) {
             Some(room) => match old_room_node {
                 Some(old) => prepare_room_with_history(room, &old, room_node)?,
